@@ -1423,7 +1423,7 @@ theorem nv_eoh (h : Nat) (b : Buf) (pf : PFromBody) (e n crl : Nat) (r : Err)
          | rfl
          | exact nv_eohPN b pf e
          | exact nv_eohV b _ e
-         | (simp only [PFromBody.extV, PField.extend, PFromBody.extParams, PFromBody.setURI]
+         | (simp only [PFromBody.extV, PField.extend, PFromBody.extParams]
             first | rfl | rw [(setFromParamVal_vp _ _).1]))
 
 theorem nv_d_eoh (h : Nat) {b : Buf} {o i : Nat} (pf : PFromBody) (e n crl : Nat) (r : Err) (hI : NvInv b o i pf) :
